@@ -38,7 +38,7 @@ pub fn impl_ebml_specification(original: &mut ItemEnum) -> Result<TokenStream> {
 
     let map: HashMap<_, _> = input.variants.iter().map(|var|(&var.ident, var)).collect();
     for origin in &input.variants {
-        if !matches!(origin.data_type_attr.0, TagDataType::Master) && origin.path_attr.is_some() {
+        if origin.path_attr.is_some() {
             validate_path(origin, &map)?;
         }
     }
@@ -70,13 +70,21 @@ fn validate_path(origin: &crate::ast::Variant, variants_map: &HashMap<&Ident, &c
                 return Err(Error::new_spanned(parent.original, "Parents must be of Master type"))
             }
 
+            if parent.ident == origin.ident {
+                return Err(Error::new_spanned(origin.original, "An element cannot be its own parent"))
+            }
+
+            // The path must be made up of the parent's own path, then the parent itself (optionally followed by a global placeholder)
+            let parent_path_len = parent.path_attr.as_ref().map_or(0, |(parent_path, _)| parent_path.parts.len());
             if let Some((parent_path, _)) = parent.path_attr.as_ref() {
-                for i in 0..parent_path.parts.len() {
-                    if parent_path.parts[i] != path_parts[i] {
-                        return Err(Error::new_spanned(origin.original, format!("Path segment [{}] did not align with parent [{}] path.", path_parts[i], parent.ident)));
+                for i in 0..parent_path_len {
+                    if i >= path_parts.len() || parent_path.parts[i] != path_parts[i] {
+                        return Err(Error::new_spanned(origin.original, format!("Path did not align with parent [{}] path.", parent.ident)));
                     }
                 }
-                validate_path(parent, variants_map)?;
+            }
+            if !matches!(path_parts.iter().nth(parent_path_len), Some(PathPart::Ident(ident)) if ident == &parent.ident) {
+                return Err(Error::new_spanned(origin.original, format!("Path did not align with parent [{}] path.", parent.ident)));
             }
         }
     }
